@@ -62,7 +62,9 @@ static void viol(const std::string &cls, const std::string &sig, const std::stri
 	if (!g_rs) return;
 	Violation v; v.cls = cls; v.sig = sig; v.detail = detail; v.op_index = op;
 	g_rs->rep->violations.push_back(v);
-	rt::g_log.ev("violation", rt::sched_current_task(), op, rt::fnv64(cls.data(), cls.size()), rt::fnv64(sig.data(), sig.size()));
+	// TSan's choice of which racing pair to report depends on shadow-cell state left by earlier runs of the
+	// same process, so race reports stay out of the run fingerprint (they are an oracle output, not an event)
+	if (cls != "TSAN_RACE") rt::g_log.ev("violation", rt::sched_current_task(), op, rt::fnv64(cls.data(), cls.size()), rt::fnv64(sig.data(), sig.size()));
 }
 
 static void drain_tsan(int op) {
@@ -498,10 +500,8 @@ static void exec_op(RunState &rs, int i) {
 
 static void task_body(int task, void *arg) {
 	RunState &rs = *(RunState *)arg;
-	seam::tsan_ignore_begin();
 	seam::set_mxcsr(0x1F80);
 	for (int i : rs.task_ops[task]) exec_op(rs, i);
-	seam::tsan_ignore_end();
 }
 
 Report execute(const Plan &plan, const Options &opt) {
